@@ -104,6 +104,59 @@ def replay_chars(states, extra):
     return {'n': n, 'bad': bad, 'fine': fine, 'classes': classes, 'sample': sample}
 
 
+def marked_indices(msg):
+    """positions (1-based) of the characters wrapped in <mark> inside the <code> block of a bracket error"""
+    i = msg.find('<code>')
+    j = msg.rfind('</code>')
+    if i < 0 or j < 0:
+        return None
+    body = msg[i + 6:j]
+    out, pos, k = set(), 0, 0
+    while k < len(body):
+        if body.startswith('<mark>', k):
+            out.add(pos + 1)
+            k += 6
+        elif body.startswith('</mark>', k):
+            k += 7
+        else:
+            pos += 1
+            k += 1
+    return out
+
+
+def replay_brackets(states, extra):
+    from engine import repo
+    repo.activate()
+    from mitxgraders.helpers.calc.expressions import BracketValidator, evaluator
+    from mitxgraders.helpers.calc.exceptions import UnbalancedBrackets
+    n, bad, drift, kinds = 0, [], 0, {}
+    for st in states:
+        if st['status'] == 'scanning':
+            continue
+        n += 1
+        text = ''.join(st['formula'])
+        kinds[st['status']] = kinds.get(st['status'], 0) + 1
+        try:
+            BracketValidator.validate(text)
+            got, marks = 'ok', set()
+        except UnbalancedBrackets as e:
+            got, marks = 'unbalanced', marked_indices(str(e))
+        except Exception as e:  # noqa
+            got, marks = 'other:' + type(e).__name__, None
+        want = 'ok' if st['status'] == 'ok' else 'unbalanced'
+        if got != want:
+            if len(bad) < 50:
+                bad.append({'text': text, 'what': 'bracket check on %r: spec %s (%s), code %s' % (text, want, st['status'], got)})
+        elif want == 'unbalanced' and marks != set(st['marks']):
+            drift += 1
+        # the front door: an unbalanced string is rejected by evaluator() whatever else it contains
+        if want == 'unbalanced' and text.strip():
+            o = X.observe(text, evaluator, X.scope())
+            if X.coarse(o['c']) != 'rejected' and len(bad) < 50:
+                bad.append({'text': text, 'what': 'evaluator(%r): unbalanced brackets but outcome %s' % (text, o['c'])})
+    return {'n': n, 'bad': bad, 'drift': drift, 'kinds': kinds}
+
+
 OPS_BINDINGS = [
     {'a': 2, 'b': 3, 'c': 2, 'd': 5, 'e': 3},                                   # the model's exact binding
     {'a': 1.7, 'b': 0.6, 'c': 2.3, 'd': 1.1, 'e': 0.9},
@@ -154,6 +207,24 @@ def replay_ops(states, extra):
 
 
 def run(ctx):
+    d = os.path.join(ctx.scratch, 'brackets')
+    ctx.tlc('expr/BracketValidator.tla', 'expr/MC_BracketValidator_%s.cfg' % ctx.tier, dump=d, deadlock=False, timeout=6000)
+    res = dump.parallel(d + '.dump', 'engine.adapters.c03', 'replay_brackets')
+    os.remove(d + '.dump')
+    kinds, bdrift = {}, 0
+    for r in res:
+        ctx.count(r['n'])
+        ctx.traces_validated += r['n']
+        bdrift += r['drift']
+        for k, v in r['kinds'].items():
+            kinds[k] = kinds.get(k, 0) + v
+        for b in r['bad']:
+            ctx.violation({'text': b['text'], 'aspect': 'brackets'}, b['what'])
+    if bdrift:
+        ctx.note_drift('%d strings: highlighted bracket positions differ from the BracketValidator model' % bdrift)
+    for k in kinds:
+        ctx.nontrivial.add(('bracket-outcome', k))
+    ctx.extra['bracket_outcomes'] = kinds
     d = os.path.join(ctx.scratch, 'ops')
     ctx.tlc('expr/MC_ExprOps.tla', 'expr/MC_ExprOps_%s.cfg' % ctx.tier, dump=d, timeout=6000)
     res = dump.parallel(d + '.dump', 'engine.adapters.c03', 'replay_ops', extra={'seed': ctx.seed})
